@@ -17,7 +17,7 @@ RULE = ('Hypothesis rule-based state machine. State: a pool of trees (fixed seed
         'indent)), default Unparser, and Unparsers that share rule objects: one minify / indent / obfuscate rule configuring several of them, also under instance-level layout handlers; the model printer of such a configuration is built from private rule objects). Rules: print_full(printer, tree); print_abandon(printer, tree, k) (k fragments, '
         'then the generator is closed or dropped); print_raising(printer) (a tree holding a node kind without '
         'definition); new_printer; new_tree; shortcut(text, kind). Model: the fragment list a *fresh* printer of the '
-        'same configuration produced for the tree the first time the pair was seen; every later full print must '
+        'same configuration produced for the tree the first time the pair was seen (for the fixed seed trees: produced in a separate fresh interpreter, so that process-wide state cannot reach the model); every later full print must '
         'equal it (text, line, column, name, source). Invariant after every step: the deep fingerprint of every '
         'pooled tree (all attributes incl. positions, token tables, comments) and of the shared rule tables / '
         'surrogate elision separator is unchanged. Shortcuts: str(node) == pretty_print(node); es5.pretty_print(src, '
@@ -37,6 +37,10 @@ SEED_SOURCES = [
     ('try { a(); } catch (e) { b(e); } finally { c(); } switch (x) { case 1: y; default: z; }', False),
     ('for (var i = 0, n = a.length; i < n; i++) { o[i] = { get p() { return i; }, set p(v) { i = v; } }; }', False),
     ('x = "a\\\nb" + 1 .y; L: while (1) { break L; }', False),
+    # catch parameters of one tree are free names used inside catch blocks of another
+    ('function h() { try { run(); } catch (e) { log(e); report(err, x); } }', False),
+    ('function k() { try { f(); } catch (log) { g(log); try { h(); } catch (err) { report(log, err); } } }', False),
+    ('try { a(); } catch (report) { report(e); } function m(x) { try { x(); } catch (run) { e(run, log); } }', False),
 ]
 
 CONFIGS = [('pretty', '  '), ('pretty', '\t'), ('pretty', ''), ('default',), ('shared_min',), ('shared_min_indent',),
@@ -177,8 +181,11 @@ class World(object):
 
     def expected(self, cfg, ti):
         key = (cfg, self.trees[ti][0])
+        if key not in self.model and key in CLEAN_MODEL:
+            # computed by a fresh interpreter that printed nothing else before
+            self.model[key] = CLEAN_MODEL[key]
         if key not in self.model:
-            self.model[key] = [tuple(f) for f in make_printer(cfg, fresh=True)(self.trees[ti][1])]
+            self.model[key] = [tuple(jsonable(f)) for f in make_printer(cfg, fresh=True)(self.trees[ti][1])]
         return self.model[key]
 
     def print_full(self, pi, ti):
@@ -188,7 +195,7 @@ class World(object):
         self.touched.add(ti)
         cfg, printer, dirty = self.printers[pi]
         exp = self.expected(cfg, ti)
-        got = [tuple(f) for f in printer(self.trees[ti][1])]
+        got = [tuple(jsonable(f)) for f in printer(self.trees[ti][1])]
         if got != exp:
             d = next((i for i, (a, b) in enumerate(zip(got, exp)) if a != b), min(len(got), len(exp)))
             raise Violation('reused_printer_output_differs', {
@@ -270,9 +277,12 @@ class World(object):
             return
         if kind == 'str':
             a, b = str(t), pretty_print(t)
-            sub = t.children()[0] if t.children() else t
-            if str(sub) != pretty_print(sub):
-                raise Violation('str_differs_from_pretty_print', {'source': src, 'node': type(sub).__name__})
+            from calmjs.parse.walkers import Walker
+            for sub in Walker().walk(t):
+                if str(sub) != pretty_print(sub):
+                    raise Violation('str_differs_from_pretty_print', {'source': src, 'node': type(sub).__name__,
+                                                                      'str': str(sub)[:200],
+                                                                      'pretty_print': pretty_print(sub)[:200]})
         elif kind == 'pretty':
             a = es5.pretty_print(src, with_comments=wc) if wc else es5.pretty_print(src)
             b = pretty_print(t)
@@ -333,6 +343,42 @@ class World(object):
 
 LAST = {}
 _WIDE_CACHE = {}
+CLEAN_MODEL = {}
+
+CLEAN_CODE = r'''
+import json, sys
+sys.path.insert(0, sys.argv[1])
+from props import c14
+out = []
+from calmjs.parse.parsers.es5 import parse
+for si, (src, wc) in enumerate(c14.SEED_SOURCES):
+    for ci, cfg in enumerate(c14.CONFIGS):
+        # one fresh tree and one fresh printer per pair; earlier pairs of this child only printed
+        # through printers of their own
+        t = parse(src, with_comments=wc)
+        out.append([si, ci, [c14.jsonable(f) for f in c14.make_printer(cfg, fresh=True)(t)]])
+print(json.dumps(out))
+'''
+
+
+def jsonable(fragment):
+    return [x if isinstance(x, (str, int, type(None))) else repr(x) for x in fragment]
+
+
+def load_clean_model(root):
+    """expected fragments of (configuration, seed tree), each pair printed in an interpreter of its own
+    batch: process-wide state left behind by other prints cannot reach the model"""
+    import os
+    import subprocess
+    import sys
+    from harness import build
+    here = os.path.dirname(os.path.dirname(os.path.abspath(__file__)))
+    p = subprocess.run([sys.executable, '-c', build.boot_code(root) + CLEAN_CODE, here], env=build.child_env(root),
+                       capture_output=True, text=True, timeout=600)
+    if p.returncode != 0:
+        raise RuntimeError('clean-room model failed: %s' % p.stderr[-800:])
+    for si, ci, frags in json.loads(p.stdout.strip().splitlines()[-1]):
+        CLEAN_MODEL[(CONFIGS[ci], SEED_SOURCES[si])] = [tuple(f) for f in frags]
 STATS = {'histories': 0, 'steps': 0, 'interesting': set(), 'ops': {}, 'samples': []}
 
 SHORT_SRC = st.sampled_from([s for s, _ in SEED_SOURCES] + ['a = 1', 'function f(){}', 'x = [1,,2]', 'if (a) b; else c',
@@ -415,6 +461,9 @@ class Machine(RuleBasedStateMachine):
 
 
 def replay(case, acc):
+    if not CLEAN_MODEL:
+        from harness import build
+        load_clean_model(build._made[-1])
     w = World()
     try:
         for op in case['history']:
@@ -435,6 +484,8 @@ def run_shard(shard):
     acc = Acc()
     opens = shard['open_signatures']
     LAST.clear()
+    if not CLEAN_MODEL:
+        load_clean_model(shard['root'])
     STATS.update({'histories': 0, 'steps': 0, 'interesting': set(), 'ops': {}, 'samples': []})
     phases = (Phase.generate, Phase.shrink) if shard.get('shrink') else (Phase.generate,)
     s = settings(max_examples=shard['n'], stateful_step_count=shard['steps'], deadline=None, database=None,
